@@ -95,10 +95,27 @@ def dyadic(rng, k, denom=8):
     return [b - a for a, b in zip([0] + cuts, cuts + [denom])]
 
 
+def probs_of(weights, skew=0):
+    """Probabilities for a list of integer weights in eighths.  skew=0: w/8 (exact binary fractions).  skew=k>0: the i-th
+    positive weight becomes w+(i+1)k and the list is divided by its new sum - thirds, elevenths, ... that add up to 1 only
+    up to rounding, like the probabilities of most hand-written models (zero entries stay zero, the support is unchanged)."""
+    if not skew or any(isinstance(w, float) for w in weights):
+        return [w / 8.0 for w in weights]
+    out, i = [], 0
+    for w in weights:
+        if w > 0:
+            i += 1
+            out.append(w + i * skew)
+        else:
+            out.append(0)
+    tot = sum(out)
+    return [w / tot for w in out]
+
+
 # --------------------------------------------------------------------- MDP spec
 def gen_mdp_spec(rng, *, proper, max_states=6, max_actions=3, discounts=(0.5, 0.8, 0.9, 0.95, 0.99, 1.0),
                  nonpositive=False, uniform_actions=False, kinds=KEY_KINDS, zero_entries=True,
-                 rewards=None, absorbing_reward=True, min_states=1, extreme=False, leftover_abs=False):
+                 rewards=None, absorbing_reward=True, min_states=1, extreme=False, leftover_abs=False, huge=False):
     """Random table MDP.
 
     states 0..n-1 are non-absorbing, n..n+g-1 are explicit absorbing states.
@@ -120,6 +137,8 @@ def gen_mdp_spec(rng, *, proper, max_states=6, max_actions=3, discounts=(0.5, 0.
             rchoices = tuple(r * 1e6 for r in rchoices)
         elif u < 0.05:
             rchoices = tuple(r * 1e-9 for r in rchoices)
+        elif u < 0.06 and huge:
+            rchoices = tuple(r * 1e9 for r in rchoices)      # values beyond 2**63 / 1e10: fixed-point tricks overflow here
     level = list(range(n))
     rng.shuffle(level)
     absorbing = list(range(n, n + g))
@@ -172,8 +191,12 @@ def gen_mdp_spec(rng, *, proper, max_states=6, max_actions=3, discounts=(0.5, 0.
     else:
         init_states = sorted(rng.sample(range(n + g), k))
     init = [[s, p] for s, p in zip(init_states, dyadic(rng, len(init_states)))]
-    return dict(kind=rng.choice(kinds), n=n, absorbing=absorbing, nA=nA, gamma=gamma,
+    spec = dict(kind=rng.choice(kinds), n=n, absorbing=absorbing, nA=nA, gamma=gamma,
                 trans=trans, init=init, proper=proper)
+    u = rng.random()
+    if u < 0.12:
+        spec['skew'] = 1 + int(u * 1000) % 3        # probabilities that are not binary fractions (see probs_of)
+    return spec
 
 
 def rare_catastrophe_spec(rng, kinds=KEY_KINDS):
@@ -217,11 +240,12 @@ class MDPView:
         self.R = {}
         for s, a, outs in spec['trans']:
             self.A.setdefault(s, []).append(a)
-            self.Tall[s, a] = [(t, p / 8.0) for t, p, r in outs]
-            self.T[s, a] = {t: p / 8.0 for t, p, r in outs if p > 0}
+            ps = probs_of([p for t, p, r in outs], spec.get('skew', 0))
+            self.Tall[s, a] = [(t, q) for (t, p, r), q in zip(outs, ps)]
+            self.T[s, a] = {t: q for (t, p, r), q in zip(outs, ps) if p > 0}
             for t, p, r in outs:
                 self.R[s, a, t] = r
-        self.init = {s: p / 8.0 for s, p in spec['init']}
+        self.init = dict(zip([s for s, p in spec['init']], probs_of([p for s, p in spec['init']], spec.get('skew', 0))))
         self.sk = {i: skey(self.kind, i) for i in range(self.N)}
         self.ak = {i: akey(self.kind, i) for i in range(spec['nA'])}
         self.sid = {v: k for k, v in self.sk.items()}
@@ -413,8 +437,12 @@ def gen_pomdp_spec(rng, kinds=KEY_KINDS, discounts=(0.5, 0.8, 0.9, 0.95), max_ab
     k = rng.randint(1, min(2, nS))
     init_states = sorted(rng.sample(range(nS), k))
     init = [[s, p] for s, p in zip(init_states, dyadic(rng, k))]
-    return dict(kind=rng.choice(kinds), nS=nS, nA=nA, nO=nO, absorbing=absorbing, trans=trans,
+    spec = dict(kind=rng.choice(kinds), nS=nS, nA=nA, nO=nO, absorbing=absorbing, trans=trans,
                 obs=obs, init=init, gamma=rng.choice(discounts))
+    u = rng.random()
+    if u < 0.12:
+        spec['skew'] = 1 + int(u * 1000) % 3
+    return spec
 
 
 class POMDPView:
@@ -427,13 +455,15 @@ class POMDPView:
         self.T = {}
         self.R = {}
         for s, a, outs in spec['trans']:
-            self.T[s, a] = {t: p / 8.0 for t, p, r in outs if p > 0}
+            ps = probs_of([p for t, p, r in outs], spec.get('skew', 0))
+            self.T[s, a] = {t: q for (t, p, r), q in zip(outs, ps) if p > 0}
             for t, p, r in outs:
                 self.R[s, a, t] = r
         self.Ob = {}
         for a, t, outs in spec['obs']:
-            self.Ob[a, t] = {o: p / 8.0 for o, p in outs if p > 0}
-        self.init = {s: p / 8.0 for s, p in spec['init']}
+            ps = probs_of([p for o, p in outs], spec.get('skew', 0))
+            self.Ob[a, t] = {o: q for (o, p), q in zip(outs, ps) if p > 0}
+        self.init = dict(zip([s for s, p in spec['init']], probs_of([p for s, p in spec['init']], spec.get('skew', 0))))
         self.sk = {i: skey(self.kind, i) for i in range(self.nS)}
         self.ak = {i: akey(self.kind, i) for i in range(self.nA)}
         self.ok = {i: okey(self.kind, i) for i in range(self.nO)}
@@ -578,6 +608,11 @@ def make_graph_mdp(view, rep):
     if rep == 'dict':
         return QuickTabularMDP(next_state_dist=lambda s, a: DictDistribution({nxt(s, a): 1.0}),
                                initial_state_dist=DictDistribution({src: 1.0}), **kw)
+    if rep == 'dict_ulp':
+        # a single outcome whose probability was summed from parts: 1 only up to rounding (0.7 + 0.2 + 0.1)
+        one = 0.7 + 0.2 + 0.1
+        return QuickTabularMDP(next_state_dist=lambda s, a: DictDistribution({nxt(s, a): one}),
+                               initial_state_dist=DictDistribution({src: one}), **kw)
     if rep == 'uniform':
         return QuickTabularMDP(next_state_dist=lambda s, a: UniformDistribution([nxt(s, a)]),
                                initial_state_dist=UniformDistribution([src]), **kw)
@@ -716,3 +751,29 @@ def interrupted_first_sweep(model, ctx, k):
             break
     ctx.disarm(hook)
     return delivered
+
+
+def sym_pomdp_spec(rng, kinds=KEY_KINDS):
+    """A symmetric two-door problem (Tiger-like): listening (action 0) keeps the state and reports it correctly with
+    probability 5/8, opening a door (actions 1, 2) resets the state uniformly.  With the value-based policy of
+    `sym_qmdp_table` the listen/open boundary lies EXACTLY on the belief 25/34 reached after two more observations of one
+    kind than of the other, and different observation histories reach that belief with different last bits - the greedy
+    action set there is decided by rounding."""
+    trans, obs = [], []
+    for s in (0, 1):
+        trans.append([s, 0, [[s, 8, -1.0]]])
+        for a in (1, 2):
+            r = -29.0 if a - 1 == s else 10.0
+            trans.append([s, a, [[0, 4, r], [1, 4, r]]])
+    for t in (0, 1):
+        obs.append([0, t, [[t, 5], [1 - t, 3]]] if t == 0 else [0, t, [[0, 3], [1, 5]]])
+        for a in (1, 2):
+            obs.append([a, t, [[0, 4], [1, 4]]])
+    return dict(kind=rng.choice(kinds), nS=2, nA=3, nO=2, absorbing=[], trans=trans, obs=obs, init=[[0, 4], [1, 4]],
+                gamma=0.95, symmetric=True)
+
+
+def sym_qmdp_table():
+    # value(open door d | belief b that the tiger is behind d) = -34 b, value(listen) = -9: listening is better at b = 1/2,
+    # tie at b = 9/34, i.e. when the other state has belief 25/34
+    return [[-9.0, -34.0, 0.0], [-9.0, 0.0, -34.0]]
